@@ -104,12 +104,12 @@ func VerifC08GenerateNewPrices() {
 		soft[i], hard[i] = sb, hb
 		sds = append(sds, types.NewSignalDeviation(id, su, hu))
 		oldP[i], newP[i] = big.NewInt(0), big.NewInt(0)
-		if vs.Bool("has_latest") {
+		if i >= vs.Param("full_shapes") || vs.Bool("has_latest") {
 			u, b := c08U64("latest_price")
 			oldP[i] = b
 			latest[id] = feedstypes.NewPrice(feedstypes.PriceStatus(vs.Int("latest_status", 0, 3)), id, u, vs.I64("latest_ts"))
 		}
-		if vs.Bool("in_feeds") {
+		if i >= vs.Param("full_shapes") || vs.Bool("in_feeds") {
 			inFeeds[i] = true
 			u, b := c08U64("feed_price")
 			newP[i] = b
